@@ -158,6 +158,85 @@ class Repo:
         return self.function(relpath, decl_regex)
 
 
+_KW = set("if while for switch return sizeof static_cast reinterpret_cast const_cast dynamic_cast new delete assert alignof decltype catch "
+          "defined static_assert throw typeid noexcept alignas".split())
+
+
+def inline_helpers(repo, relpath, piece, within=None, exclude=(), depth=3):
+    """R19: a call to a helper defined in the same scope (class body or file) that is not itself rendered by a rule is inlined
+    textually, so that a refactoring which moves statements into a new private helper is still followed:
+      `helper(a, b);`            as a statement, helper returns void without an early return -> `{ body[a/p1, b/p2] }`
+      `helper(a, b)`             inside an expression, helper body is a single `return e;`   -> `(e[a/p1, b/p2])`
+    Parameters are substituted by the (parenthesised) argument expressions, which is exact for reference/pointer/value
+    parameters when the arguments have no side effects (checked: no ++, --, = or call in an argument)."""
+    full = repo.text(relpath)
+    lo, hi = 0, len(full)
+    if within:
+        m = re.search(within, full)
+        if m:
+            b = full.find('{', m.end())
+            lo, hi = b, match_balanced(full, b, '{', '}')
+    scope = full[lo:hi]
+    excl = set(exclude) | _KW
+    fired = 0
+    for _ in range(depth):
+        changed = False
+        for m in list(re.finditer(r'(?<![\w.>:~])([A-Za-z_]\w*)\s*\(', piece.text)):
+            name = m.group(1)
+            if name in excl:
+                continue
+            defs = list(re.finditer(r'(?:^|[;{}])\s*(?:(?:static|inline|constexpr|DISPENSO_INLINE)\s+)*([\w:<>&*\s]+?)\s+' + re.escape(name) + r'\s*\(([^()]*)\)\s*(?:const\s*)?(?:noexcept\s*)?\{', scope))
+            if len(defs) != 1:
+                continue
+            d = defs[0]
+            if re.search(r'\b(return|else|new|delete|throw|case|goto|typedef|using|struct|class)\s*$', d.group(1).strip()):
+                continue
+            bstart = lo + d.end() - 1
+            bend = match_balanced(full, bstart, '{', '}')
+            body = full[bstart + 1:bend - 1]
+            params = []
+            ptxt = d.group(2).strip()
+            ok = True
+            if ptxt and ptxt != 'void':
+                for prm in split_args(ptxt):
+                    pm = re.search(r'([A-Za-z_]\w*)\s*$', prm)
+                    if not pm or '=' in prm:
+                        ok = False
+                        break
+                    params.append(pm.group(1))
+            if not ok:
+                continue
+            astart = m.end() - 1
+            aend = match_balanced(piece.text, astart, '(', ')')
+            args = split_args(piece.text[astart + 1:aend - 1])
+            if len(args) != len(params) or any(re.search(r'\+\+|--|(?<![=!<>])=(?!=)|\w\s*\(', a) for a in args):
+                continue
+            def subst(text):
+                for pn, a in zip(params, args):
+                    rep = a if re.fullmatch(r'[A-Za-z_]\w*', a) else '(' + a + ')'
+                    text = re.sub(r'(?<![\w.>])' + re.escape(pn) + r'\b', lambda _m, rep=rep: rep, text)
+                return text
+            is_void = re.search(r'\bvoid\s*$', d.group(1).strip()) is not None
+            before = piece.text[:m.start()].rstrip()
+            after = re.match(r'\s*;', piece.text[aend:])
+            single_ret = re.fullmatch(r'\s*return\s+([^;]*);\s*', body, re.S)
+            if is_void and after and (not before or before[-1] in ';{})') and not re.search(r'\breturn\b', body):
+                piece.text = piece.text[:m.start()] + '{ /* R19 inlined ' + name + ' */ ' + subst(body) + ' }' + piece.text[aend + after.end():]
+            elif single_ret and not is_void:
+                piece.text = piece.text[:m.start()] + '(/* R19 inlined ' + name + ' */ ' + subst(single_ret.group(1)) + ')' + piece.text[aend:]
+            else:
+                continue
+            fired += 1
+            changed = True
+            break
+        if not changed:
+            break
+    if fired:
+        piece.rules = list(getattr(piece, 'rules', [])) + [('R19', fired)]
+        piece.pre_rules = [('R19', fired)]
+    return fired
+
+
 def slice_between(piece, start_regex, end_regex, include_start=True, include_end=False):
     """statements of piece.text from the (unique) match of start_regex up to the (unique, first after start)
     match of end_regex"""
@@ -362,7 +441,7 @@ def apply_rules(piece, typemap=None, subs=(), must_fire=(), drop=(), keep_this=F
     if resid:
         ln = piece.line_start + t_chk.count('\n', 0, resid.start())
         raise ExtractionError("%s:~%d: C++-only token %r left after rewriting" % (piece.relpath, ln, resid.group()))
-    piece.rules = sorted(fired.items())
+    piece.rules = sorted(fired.items()) + list(getattr(piece, 'pre_rules', []))
     return t
 
 
